@@ -3775,6 +3775,7 @@ static size_t ZSTDv07_decompressFrame(ZSTDv07_DCtx* dctx,
         {
         case bt_compressed:
             decodedSize = ZSTDv07_decompressBlock_internal(dctx, op, oend-op, ip, cBlockSize);
+            if (!ZSTDv07_isError(decodedSize) && decodedSize > ZSTDv07_BLOCKSIZE_ABSOLUTEMAX) return ERROR(corruption_detected);   /* ZSTD_decompressBound() counts on it */
             break;
         case bt_raw :
             decodedSize = ZSTDv07_copyRawBlock(op, oend-op, ip, cBlockSize);
